@@ -3,7 +3,7 @@
    script lists regenerated from ctrl/qryn/sql/*.sql). *)
 From Coq Require Import List String NArith ZArith Bool Arith.
 From Qryn Require Import model.Migrate model.MigrateRepair proofs.MigrateProofs proofs.MigrateClusterProofs proofs.MigrateConcProofs
-  proofs.MigrateClassProofs proofs.MigrateClassExact proofs.MigrateSoloProofs proofs.MigrateRepairProofs proofs.MigrateBootProofs gen.GenScripts proofs.MigrateConcrete.
+  proofs.MigrateClassProofs proofs.MigrateClassExact proofs.MigrateSoloProofs proofs.MigrateRepairProofs proofs.MigrateBootProofs proofs.MigrateShardProofs gen.GenScripts proofs.MigrateConcrete.
 Import ListNotations.
 Open Scope nat_scope.
 
@@ -276,3 +276,26 @@ Theorem init_rerun_converges_scripts : forall (bc : bcfg) (n : nat) (runs : list
   (forall os, filter is_script_event (br_log (ch_init gen_scripts gen_oncluster bc os (br_db r))) = []).
 Proof. exact gen_init_converges. Qed.
 Print Assumptions init_rerun_converges_scripts.
+
+(* ---- round 7: where the version rows live on a cluster.  INSERT INTO ver goes to the local table of the connected
+   host (a Replicated ver shares it within one shard); ver_dist reads every shard.  For every sequence of version
+   writes, each through any shard: what ver_dist answers is exactly the model's d_vers (one function of the stream,
+   raised by set_ver) -- so the protocol theorems above do not depend on the host a start is connected to as long as
+   the version is read through ver_dist, which is what updateScripts does whenever a cluster name is set. *)
+Theorem version_read_through_ver_dist_is_the_models :
+  forall (cat : Type) (ws : list (nat * stream * nat)) (st : vstore) (d : db cat),
+  Forall (fun w => fst (fst w) < List.length st) ws ->
+  (forall k, read_dist st k = d_vers d k) ->
+  forall k, read_dist (writes ws st) k = d_vers (model_writes cat ws d) k.
+Proof. exact dist_read_follows_model. Qed.
+Print Assumptions version_read_through_ver_dist_is_the_models.
+
+(* ... while the local table of another shard never shows a write: a start that reaches the cluster through another
+   shard and reads `ver` finds version 0 of a fully migrated database (Example two_shards: 28 recorded through shard
+   0, shard 1 answers 0, ver_dist 28).  Reading the local table on a cluster is therefore outside the model; the
+   harness lets the last start of a history connect to another host and judges what it executes. *)
+Theorem version_read_from_local_table_misses_other_shards :
+  forall (st : vstore) (s s' : nat) (k : stream) (v : nat) (k' : stream), s <> s' ->
+  read_local s' (ins s k v st) k' = read_local s' st k'.
+Proof. exact local_read_misses. Qed.
+Print Assumptions version_read_from_local_table_misses_other_shards.
